@@ -1,7 +1,12 @@
 """Seeded generators of layout-handler configurations accepted by LayoutHandler (used by C01, C02, C04, C06)."""
 
 
+EMPTY_BLOCKS = True      # extents smaller than the process count (ranks with an empty block) are legal inputs
+
+
 def _ok(N, nprocs, dims):
+    if EMPTY_BLOCKS:
+        return all(N[dims[a]] >= 1 for a in range(len(nprocs)))
     return all(nprocs[a] <= N[dims[a]] for a in range(len(nprocs)))
 
 
